@@ -1,7 +1,7 @@
 #!/bin/sh
 # tools/try_mutant.sh <patch.diff> [tier] [Cxx ...]  - applies the patch to a scratch copy of /repo's xgi (outside /repo and /verif),
 # runs the given checks (default: all 20) against it, prints which ones report a violation, removes the copy.
-patch="$1"; tier="${2:-quick}"; shift; shift 2>/dev/null
+patch="$(readlink -f "$1")"; tier="${2:-quick}"; shift; shift 2>/dev/null
 checks="$*"; [ -z "$checks" ] && checks="C01 C02 C03 C04 C05 C06 C07 C08 C09 C10 C11 C12 C13 C14 C15 C16 C17 C18 C19 C20"
 d=$(mktemp -d /tmp/xgi_mutant.XXXXXX)
 cp -r /repo/xgi "$d/xgi"
